@@ -95,6 +95,16 @@ class EnvState:
                 r = sorted(render(x) for x in env.interpreted_functions_extractor.get(e))
             elif k == "rmq":
                 r = render(self.rmq.remove_quantifiers(e, self.problem))
+            elif k == "pkind":
+                # the kind computation of a problem whose goal is e: runs the environment's
+                # simplifier and the linearity checker over the expression
+                p2 = Problem("k", env)
+                for f in self.problem.fluents:
+                    p2.add_fluent(f)
+                for o in self.problem.all_objects:
+                    p2.add_object(o)
+                p2.add_goal(e)
+                r = sorted(p2.kind.features)
             else:
                 raise BuildError(f"unknown op {k}")
             out = ["ok", _js(r)]
@@ -123,7 +133,7 @@ class EnvHist(Engine):
         "script = world (2-level type hierarchy, 4-6 fluents, free parameters, 0-2 interpreted functions) + pool of "
         "6-12 expressions that share sub-expressions + 15-40 walker calls on ONE Environment (simplify, "
         "Simplifier(problem).simplify, substitute, type, free-vars extractor/oracle, names, interpreted-function "
-        "extractor, quantifier removal, construction), some failing by themselves (ill-typed construction, division by "
+        "extractor, quantifier removal, construction, kind computation of a problem with the expression as goal), some failing by themselves (ill-typed construction, division by "
         "a zero constant inside the walk, incompatible map, subtype-eliminating Exists), some hit by an injected "
         "callback failure or by MemoryError at a chosen line event; each unfaulted call is compared with the same call "
         "in a fresh Environment. non-trivial = a failure happened inside a library call (fired injected fault, or a "
@@ -333,8 +343,8 @@ class EnvHist(Engine):
             if e is None:
                 kind, e = ro.choice(pool)
             if opk is None:
-                opk = ro.choices(["simplify", "subst", "type", "fve", "fvo", "names", "rmq", "psimplify", "build", "ifx"],
-                                 [5, 5, 1, 1, 1, 1, 2, 2, 1, 1])[0]
+                opk = ro.choices(["simplify", "subst", "type", "fve", "fvo", "names", "rmq", "psimplify", "build", "ifx", "pkind"],
+                                 [5, 5, 1, 1, 1, 1, 2, 2, 1, 1, 1 if kind == "bool" else 0])[0]
             op = {"op": opk, "e": e}
             if opk == "subst":
                 op["map"] = sub_map(e)
